@@ -1,8 +1,237 @@
 import PvlModel.Model.Encoder
-import PvlModel.Model.Spec
+
 /-!
-# C17
-(theorems are added below as they are proved; see DESIGN §5)
+# C17 — value classification is total, exclusive and shared by reader and writer
+
+Theorems about the decoder cascade (`decodeSimple`), the token predicates (`Tok.*`) and the
+encoders' quoting decision (`Enc.encodeString`), for every grammar table, every decoder class,
+every encoder configuration and every text.
 -/
 namespace Pvl
+open Py
+
+/-- the class of a token text, by the decoder's priority order -/
+inductive Cls | keyword | quoted | based | decimal | datetime | unquoted | notAValue
+  deriving DecidableEq, Repr
+
+/-- the cascade of `decode_simple_value`, read as a classifier -/
+def classify (d : Dec) (s : Str) : Cls :=
+  if foldEq s d.g.noneKw || foldEq s d.g.trueKw || foldEq s d.g.falseKw then .keyword
+  else if (decodeQuoted d s).isSome then .quoted
+  else if (decodeNonDecimal d s).isSome then .based
+  else if (decodeDecimal s).isSome then .decimal
+  else match decodeDatetime d s with
+    | .ok _ => .datetime
+    | .error _ =>
+      match decodeUnquoted d s with
+      | .ok _ => .unquoted
+      | .error _ => .notAValue
+
+/-- **C17, totality and agreement with the decoder**: every text has exactly one class (`classify` is
+    a function) and `decode_simple_value` succeeds exactly on the texts that are not `notAValue`. -/
+theorem C17_decoder_total (d : Dec) (s : Str) :
+    (classify d s = .notAValue ↔ decodeSimple d s = .error .value) := by
+  unfold classify decodeSimple
+  by_cases h1 : foldEq s d.g.noneKw = true
+  · simp [h1]
+  by_cases h2 : foldEq s d.g.trueKw = true
+  · simp [h1, h2]
+  by_cases h3 : foldEq s d.g.falseKw = true
+  · simp [h1, h2, h3]
+  simp only [h1, h2, h3, Bool.or_self, Bool.false_eq_true, if_false]
+  cases hq : decodeQuoted d s with
+  | some q => simp
+  | none =>
+    cases hn : decodeNonDecimal d s with
+    | some i => simp
+    | none =>
+      cases hd : decodeDecimal s with
+      | some v => simp
+      | none =>
+        cases ht : decodeDatetime d s with
+        | ok v => simp
+        | error e =>
+          cases e
+          cases hu : decodeUnquoted d s with
+          | ok u => simp
+          | error e => cases e; simp
+
+/-- the type of the decoded value is the one the class announces -/
+theorem C17_decoder_type (d : Dec) (s : Str) (v : Val) (h : decodeSimple d s = .ok v) :
+    (classify d s = .keyword → v = .none ∨ ∃ b, v = .bool b) ∧
+    (classify d s = .quoted → ∃ t, v = .str t) ∧
+    (classify d s = .based → ∃ i, v = .int i) ∧
+    (classify d s = .unquoted → v = .str s ∨ ∃ t, v = .str t) := by
+  unfold classify
+  unfold decodeSimple at h
+  by_cases h1 : foldEq s d.g.noneKw = true
+  · simp only [h1, if_true] at h; cases h; simp [h1]
+  by_cases h2 : foldEq s d.g.trueKw = true
+  · simp only [h1, h2, if_true, Bool.false_eq_true, if_false] at h; cases h; simp [h1, h2]
+  by_cases h3 : foldEq s d.g.falseKw = true
+  · simp only [h1, h2, h3, if_true, Bool.false_eq_true, if_false] at h; cases h; simp [h1, h2, h3]
+  simp only [h1, h2, h3, Bool.or_self, Bool.false_eq_true, if_false] at h ⊢
+  cases hq : decodeQuoted d s with
+  | some q => simp only [hq] at h; cases h; simp
+  | none =>
+    simp only [hq] at h
+    cases hn : decodeNonDecimal d s with
+    | some i => simp only [hn] at h; cases h; simp
+    | none =>
+      simp only [hn] at h
+      cases hd : decodeDecimal s with
+      | some w => simp
+      | none =>
+        simp only [hd] at h
+        cases ht : decodeDatetime d s with
+        | ok w => simp
+        | error e =>
+          cases e
+          simp only [ht] at h
+          cases hu : decodeUnquoted d s with
+          | ok u => simp only [hu] at h; cases h; simp
+          | error e => cases e; simp only [hu] at h; cases h
+
+/-- **C17, numbers and dates are never names**: text that the decoder reads as a number or as a
+    date/time is accepted neither as an unquoted string nor as a parameter name. -/
+theorem C17_numbers_never_names (d : Dec) (s : Str)
+    (h : Tok.isNumeric d s = true ∨ Tok.isDatetime d s = true) :
+    Tok.isUnquotedString d s = false ∧ Tok.isParameterName d s = false := by
+  have hu : Tok.isUnquotedString d s = false := by
+    unfold Tok.isUnquotedString
+    rcases h with h | h
+    · simp only [h, if_true]
+      split <;> (try rfl)
+      split <;> rfl
+    · simp only [h, if_true]
+      split <;> (try rfl)
+      split <;> (try rfl)
+      split <;> rfl
+  refine ⟨hu, ?_⟩
+  unfold Tok.isParameterName
+  split
+  · rfl
+  · exact hu
+
+/-- a parameter name is always an unquoted string -/
+theorem C17_parameter_is_unquoted (d : Dec) (s : Str) (h : Tok.isParameterName d s = true) :
+    Tok.isUnquotedString d s = true := by
+  unfold Tok.isParameterName at h
+  split at h
+  · cases h
+  · exact h
+
+/-- `is_numeric` is exactly `is_decimal or is_non_decimal`, `is_simple_value` exactly "decodes" -/
+theorem C17_predicates (d : Dec) (s : Str) :
+    Tok.isNumeric d s = (Tok.isDecimal s || Tok.isNonDecimal d s) ∧
+    (Tok.isSimpleValue d s = true ↔ ∃ v, decodeSimple d s = .ok v) := by
+  refine ⟨rfl, ?_⟩
+  unfold Tok.isSimpleValue
+  cases h : decodeSimple d s with
+  | ok v => simp
+  | error e => cases e; simp
+
+namespace Enc
+
+/-- quoting never returns the text unchanged -/
+theorem quoted_ne (c : EncCfg) (s t : Str) (h : encodeStringBase c s true = .ok t) : t ≠ s := by
+  unfold encodeStringBase at h
+  simp only [if_true] at h
+  split at h
+  · cases h
+    intro he
+    have := congrArg List.length he
+    simp at this
+    omega
+  · cases h
+
+/-- **C17, reader and writer agree**: whenever an encoder — any of the four, with any options —
+    writes a string *without quotes*, its own decoder reads that text back as the identical string. -/
+theorem C17_unquoted_roundtrip (c : EncCfg) (s : Str) (h : encodeString c s = .ok s) :
+    decodeSimple c.d s = .ok (.str s) := by
+  have key : ∀ b, needsQuotesBase c s = .ok b → b = false → decodeSimple c.d s = .ok (.str s) := by
+    intro b hb hf
+    subst hf
+    unfold needsQuotesBase at hb
+    split at hb
+    · cases hb
+    · split at hb
+      · cases hb
+      · simp only at hb
+        split at hb
+        · cases hb
+        · split at hb
+          · cases hb
+          · split at hb
+            · rename_i t ht
+              simp only [Except.ok.injEq, bne_eq_false_iff_eq] at hb
+              rw [ht, hb]
+            · cases hb
+            · cases hb
+  unfold encodeString at h
+  cases hk : c.kind <;> simp only [hk] at h
+  · -- pvl
+    cases hn : needsQuotes c s with
+    | error e => simp [hn] at h
+    | ok nq =>
+      simp only [hn] at h
+      cases nq
+      · have : needsQuotesBase c s = .ok false := by
+          simpa [needsQuotes, isOdlFamily, hk] using hn
+        exact key _ this rfl
+      · exact absurd rfl (quoted_ne c s s h)
+  · -- odl
+    cases hn : needsQuotes c s with
+    | error e => simp [hn] at h
+    | ok nq =>
+      simp only [hn] at h
+      cases nq
+      · have : needsQuotesBase c s = .ok false := by
+          unfold needsQuotes at hn
+          simp only [isOdlFamily, hk] at hn
+          by_cases hid : (!isIdentifier s) = true
+          · simp [hid] at hn
+          · simpa [hid] using hn
+        exact key _ this rfl
+      · simp only at h
+        split at h
+        · simp only [Except.ok.injEq] at h
+          exfalso
+          have := congrArg List.length h
+          simp at this
+          omega
+        · exact absurd rfl (quoted_ne c s s h)
+  · -- pds
+    cases hn : needsQuotes c s with
+    | error e => simp [hn] at h
+    | ok nq =>
+      simp only [hn] at h
+      cases nq
+      · have : needsQuotesBase c s = .ok false := by
+          unfold needsQuotes at hn
+          simp only [isOdlFamily, hk] at hn
+          by_cases hid : (!isIdentifier s) = true
+          · simp [hid] at hn
+          · simpa [hid] using hn
+        exact key _ this rfl
+      · simp only at h
+        split at h
+        · simp only [Except.ok.injEq] at h
+          exfalso
+          have := congrArg List.length h
+          simp at this
+          omega
+        · exact absurd rfl (quoted_ne c s s h)
+  · -- isis
+    cases hn : needsQuotes c s with
+    | error e => simp [hn] at h
+    | ok nq =>
+      simp only [hn] at h
+      cases nq
+      · have : needsQuotesBase c s = .ok false := by
+          simpa [needsQuotes, isOdlFamily, hk] using hn
+        exact key _ this rfl
+      · exact absurd rfl (quoted_ne c s s h)
+
+end Enc
 end Pvl
